@@ -76,14 +76,16 @@ pub fn convert_node(ast: &ASTTy, imp: &mut Imports, state: &State, ctx: &Context
             statements: convert_vec(statements, imp, state, ctx)?,
         },
 
-        NodeTy::Int { lit } => Core::Int { int: lit.clone() },
+        NodeTy::Int { lit } => Core::Int {
+            int: decimal(lit),
+        },
         NodeTy::Real { lit } => Core::Float { float: lit.clone() },
         NodeTy::ENum { num, exp } => Core::ENum {
-            num: num.clone(),
+            num: decimal(num),
             exp: if exp.is_empty() {
                 String::from("0")
             } else {
-                exp.clone()
+                decimal(exp)
             },
         },
         NodeTy::DocStr { lit } => Core::DocStr {
@@ -502,6 +504,17 @@ fn skip_assign(core: &Core) -> bool {
 
 fn skip_return(core: &Core) -> bool {
     matches!(core, Core::Return { .. } | Core::Raise { .. })
+}
+
+/// Python does not permit leading zeros in a decimal integer literal.
+fn decimal(lit: &str) -> String {
+    match lit.find('.') {
+        Some(_) => String::from(lit),
+        None => {
+            let stripped = lit.trim_start_matches('0');
+            String::from(if stripped.is_empty() { "0" } else { stripped })
+        }
+    }
 }
 
 #[cfg(test)]
